@@ -68,7 +68,13 @@ CHOREO_FAMILY = {"quick": 21, "thorough": 90, "search": 45, "runner": "test", "t
                  "components": ["mismatch", "monitor:C01+C20", "monitor:C02+C20", "monitor:C18+C20"]}
 
 
+RACESTRESS_FAMILY = {"quick": 0, "thorough": 2500, "search": 700, "runner": "test", "test": "TestRaceStress", "race": True,
+                     "no_cases": True, "only": ["thorough", "search"], "search_first": True, "timeout_s": 400}
+
+
 def sig_flight(rec):
+    if rec.get("family") == "racestress":
+        return "racestress:" + str((rec.get("case") or {}).get("kind"))
     case = rec.get("case") or {}
     if rec.get("source", "").startswith("harness:hang"):
         return "flight:hang " + json_short(case.get("ops_so_far"))
@@ -91,12 +97,14 @@ SYS_TRUST = [
     "Go runtime: channel rendezvous, deferred calls run on error return and panic, testing/synctest's fake clock and quiescence detection",
 ]
 
-def sys_prop(assumptions, explanation, with_wakeup=False, quick=120, with_choreo=False):
+def sys_prop(assumptions, explanation, with_wakeup=False, quick=120, with_choreo=False, with_stress=False):
     fams = {"flight": flight_family(quick, 1500, 300)}
     if with_wakeup:
         fams["wakeup"] = WAKEUP_FAMILY
     if with_choreo:
         fams["choreo"] = CHOREO_FAMILY
+    if with_stress:
+        fams["racestress"] = RACESTRESS_FAMILY
     return {"families": fams, "signature": sig_flight, "trusted_base": SYS_TRUST,
             "assumptions": assumptions, "explanation": explanation}
 
@@ -177,8 +185,7 @@ PROPS = {
     "C20": {
         "families": {"flight": flight_family(120, 1500, 300), "wakeup": WAKEUP_FAMILY, "choreo": CHOREO_FAMILY,
                      "negotiate": {"quick": 300, "thorough": 8000, "search": 3000, "components": NEGOTIATE_COMPONENTS},
-                     "racestress": {"quick": 0, "thorough": 2500, "search": 700, "runner": "test", "test": "TestRaceStress", "race": True,
-                                    "no_cases": True, "only": ["thorough", "search"], "search_first": True, "timeout_s": 400}},
+                     "racestress": RACESTRESS_FAMILY},
         "signature": sig_c20,
         "trusted_base": SYS_TRUST + [
             "harness/cmd/skeleton (go/ast) extracts, per function, the ordered lock operations, field reads/writes, calls and control structure; the verified analysis of coq/Proofs/Lockset.v runs on that term inside Coq on every run",
@@ -196,7 +203,7 @@ PROPS = {
                     "step-level theorems: marks, immediate pass without queueing, own answer, lapse; three simultaneous passes exhibited."),
     "C08": sys_prop(["store Set/Get/Delete are atomic per key and Get returns the last successful Set or not-found (badger transactions: trusted); process start-up and badger recovery are runtime behaviour outside the model",
                      "restarts are exercised in-process at quiescent points (fresh dispatcher on the same store)"],
-                    "provenance invariant with Crash anywhere in the label sequence; restored hit = original response, original creation time, within original expiry."),
+                    "provenance invariant with Crash anywhere in the label sequence; restored hit = original response, original creation time, within original expiry.", with_stress=True),
     "C10": sys_prop(["store calls return (possibly with an error): a call that never returns is a hang of the store client, not modelled"],
                     "C01/C02 theorems hold for all store choices; no immortal/empty hit; bad record = miss; memory hits need no store."),
     "C18": sys_prop(["a purge issued while a fetch is in flight does not cancel it: its result may be stored afterwards (stated caveat)"],
@@ -268,7 +275,7 @@ PROPS = {
     },
     "C11": {
         "families": {"lru": {"quick": 64, "thorough": 400, "search": 100,
-                              "components": ["mismatch", "monitor"]}},
+                              "components": ["mismatch", "monitor", "monitor:C11"]}},
         "signature": sig_c11,
         "trusted_base": [
             "model coq/Model/LRU.v + Dispatcher.v is hand-written from groupcache/lru and cache/dispatcher.go; tied by the lru family (entry identity + per-op resident counts) and by the constants regenerated from NewDispatcher",
